@@ -198,7 +198,7 @@ PROPS = {
                    claim="Parser::f64_from_parts (fast-float build), extracted from /repo with the POW10 table: for ALL (sign, significand: u64, exponent: i32) no panic "
                          "(table index in bounds, exponent arithmetic cannot overflow), the scaling loop ends within 7 rounds (unwinding assertion on: complete, the value "
                          "reaches 0.0 after two divisions by 1e308), and an Ok result is never infinite or NaN")],
-        bounded=[dict(family="c05", what="the ASSUMED part: f64_from_parts (floating-point scaling) gives the nearest double on the exact path and the documented accuracy elsewhere; integer boundaries in every radix", bound="about 250 cases per build: 50 decimal literals incl. subnormal/extreme/over-long, 9 boundary integers x 5 radix prefixes x 3 signs, 5 over-long integers, 8 integers just past the 64-bit range, 20 magnitudes no double can hold (decimal and #b/#o/#x), 9 significands x every written exponent -345..309 (every power-of-ten scale the conversion can be asked for, both exponent spellings) and 4 (quick) / 16 (thorough) x 400 random decimal literals of 1..24 digits, all compared with std's correctly rounded str::parse::<f64> (exact when the statement says exact - incl. the 19-digit clause in the build without fast-float-parsing - within 2^-50 otherwise, an error when no double can hold the value)")],
+        bounded=[dict(family="c05", what="the ASSUMED part: f64_from_parts (floating-point scaling) gives the nearest double on the exact path and the documented accuracy elsewhere; integer boundaries in every radix", bound="about 250 cases per build: 50 decimal literals incl. subnormal/extreme/over-long, 9 boundary integers x 5 radix prefixes x 3 signs, 5 over-long integers, 8 integers just past the 64-bit range, 20 magnitudes no double can hold (decimal and #b/#o/#x), 9 significands x every written exponent -345..309 (every power-of-ten scale the conversion can be asked for, both exponent spellings) and 4 (quick) / 320 (thorough) x 400 random decimal literals of 1..24 digits, all compared with std's correctly rounded str::parse::<f64> (exact when the statement says exact - incl. the 19-digit clause in the build without fast-float-parsing - within 2^-50 otherwise, an error when no double can hold the value)")],
         explanation="The number scanner of parse/mod.rs (parse_num_literal, parse_long_integer, parse_num_tail, parse_decimal, parse_exponent, "
                     "parse_radix_literal) is extracted from /repo and verified against a declarative grammar (sp_num_literal / sp_num_tail / sp_decimal / "
                     "sp_exponent written from the C05 statement): digit runs of any length in radix 2/8/10/16, exact u64 value by induction over the digit "
